@@ -467,3 +467,86 @@ def coqchk_props(ctx, pid):
     ok = rc == 0 and "* Axioms: <none>" in out
     ctx.checker_cmds.append("cd coq/props && coqchk -silent -o -Q ../theories Pq %s  (%.1fs)" % (pid, time.time() - t))
     ctx.obligation("coqchk -o %s.vo: re-checked by the standalone checker, Axioms: <none>" % pid, ok, out[-1500:])
+
+
+# ----------------------------------------------------------------------------- translator paths2coq (C08, C14)
+PATHS_FUNCS = ["util.analyse_paths", "util._strip_path_tail", "util.path_string", "util._val_to_num",
+               "writer.partition_on_columns (directory naming)", "api.paths_to_cats", "api._path_to_cats",
+               "util.val_from_meta (bool literals)", "util.metadata_from_many (fast-path relative path)"]
+
+
+def paths_translator(ctx):
+    """translators/paths2coq.py: regenerate Gen/GenPaths.v from util.py / writer.py of the working tree and re-prove
+    coq/genproofs/GenPathsProofs.v on it.  Fail closed: outside the fragment -> False (`translator_fallback`; the hand models
+    Impl/Partition.v, Impl/Paths.v + their correspondences carry the tie alone).  -> True when the regenerated text is in use"""
+    import shutil
+    import sys
+    from harness import common as C
+    sys.path.insert(0, os.path.join(C.VERIF, "translators"))
+    import paths2coq
+    for f in os.listdir(ctx.gen_dir):
+        if f.startswith("GenPaths"):
+            os.unlink(os.path.join(ctx.gen_dir, f))
+    try:
+        text = paths2coq.translate(os.path.join(C.REPO, "fastparquet", "util.py"), os.path.join(C.REPO, "fastparquet", "writer.py"))
+        gen = os.path.join(ctx.gen_dir, "GenPaths.v")
+        open(gen, "w").write(text)
+        ok, out = C.coqc(gen, extra_q=[(ctx.gen_dir, "PqGen")])
+        if not ok:
+            raise paths2coq.Unsupported("generated text does not type-check: " + out[-600:])
+    except paths2coq.Unsupported as e:
+        ctx.extra["translator"] = {"status": "translator_fallback", "translator": "paths2coq", "reason": str(e)[:500]}
+        ctx.notes.append("translator_fallback (paths2coq): " + str(e)[:300])
+        return False
+    proofs = os.path.join(ctx.gen_dir, "GenPathsProofs.v")
+    shutil.copy(os.path.join(C.COQ, "genproofs", "GenPathsProofs.v"), proofs)
+    ctx.coq_file(proofs, extra_q=[(ctx.gen_dir, "PqGen")], obligations=["gen:" + n for n in C.theorem_names(proofs)])
+    ctx.extra["translator"] = {"status": "ok", "translator": "paths2coq", "functions": PATHS_FUNCS, "lines": text.count("\n")}
+    return True
+
+
+def coq_str(s):
+    """ASCII text -> Gallina term of type Partition.str"""
+    return "[]" if s == "" else '(s_ "%s")' % s.replace('"', '""')
+
+
+def coq_ascii_ok(s):
+    return all(32 <= ord(ch) < 127 for ch in s)
+
+
+def gen_paths_samples(ctx, path_cases, strip_cases):
+    """the REGENERATED text evaluated by the Coq kernel (vm_compute) against the real functions on sampled inputs: exercises
+    translator + prelude (Impl/PyPaths.v) end to end.  path_cases: [(paths, root|None)], strip_cases: [path]"""
+    from harness import common as C
+    from fastparquet import util, api
+    req = ("From Coq Require Import ZArith List String Ascii.\nFrom Pq Require Import Base.Bytes Impl.Partition Impl.Paths Impl.PyPaths.\n"
+           "From PqGen Require Import GenPaths.\nImport ListNotations.\n"
+           "Definition sh (s : str) : string := string_of_list_ascii s.\n"
+           "Definition sh_ares (r : ares) : string := match r with AOk b rel => sh (join_with \"|\"%char (b :: rel)) "
+           "| AIndexError => \"IndexError\"%string | AAssertion => \"AssertionError\"%string end.\n"
+           )
+    exprs, impls, cases = [], [], []
+    for paths, root in path_cases:
+        if not all(coq_ascii_ok(p) and "|" not in p for p in list(paths) + [root or ""]):
+            continue
+        exprs.append("sh_ares (gen_analyse_paths [%s] %s)" % ("; ".join(coq_str(p) for p in paths), "None" if root is None else "(Some %s)" % coq_str(root)))
+        try:
+            b, rel = util.analyse_paths(list(paths), root=False if root is None else root)
+            impls.append("|".join([b] + list(rel)))
+        except AssertionError:
+            impls.append("AssertionError")
+        except IndexError:
+            impls.append("IndexError")
+        cases.append({"gen": "analyse_paths", "paths": list(paths), "root": root})
+    for p in strip_cases:
+        if not coq_ascii_ok(p):
+            continue
+        exprs.append("sh (gen_strip_tail %s)" % coq_str(p))
+        impls.append(list(api._strip_path_tail([p]))[0])
+        cases.append({"gen": "_strip_path_tail", "path": p})
+    if not exprs:
+        return
+    res = C.vm_eval(req, exprs, "string", os.path.join(ctx.scratch, "genpaths"), tag="genpaths", extra_q=[(ctx.gen_dir, "PqGen")])
+    for c, m, i in zip(cases, res, impls):
+        mo = C.parse_coq(m) if m is not None else None
+        ctx.correspondence("regenerated text (paths2coq, kernel evaluation) ~ real function", c, mo, i)
